@@ -6,12 +6,18 @@
 // block is opened with tsdb.OpenBlock and read through NewBlockQuerier (samples), NewBlockChunkQuerier
 // (chunk metas + sample counts) and meta.json (Stats).
 //
+// Emptied-input cases (appended after the random ones): 2-5 blocks share series of which some blocks have
+// every sample deleted — by partial tombstones (series yielded without chunks), whole-chunk tombstones
+// (series not yielded) or a mix — so that the merge functions (concatenating: horizontal compaction;
+// compacting: horizontal and vertical) get inputs without chunks first / in the middle / last / in a row.
+//
 // Head cases: a real tsdb.DB head is filled (in-order appends, optional m-mapping of closed chunks,
 // Head.Delete), the RangeHead the compactor is going to read is observed through its own Index/Chunks/
 // Tombstones readers (printed as blk/ser lines for the model), then db.CompactHead writes the block.
 package main
 
 import (
+	"container/heap"
 	"context"
 	"encoding/json"
 	"fmt"
@@ -1236,6 +1242,494 @@ func genBlockCase(c *rec, r *h.Rng) []string {
 	return ops
 }
 
+// ---------------------------------------------------------------- emptied-input cases
+//
+// 2-5 source blocks sharing series, where in some of the blocks ALL samples of a shared series are deleted:
+//   * by several partial tombstones, none of which holds both ends of a chunk — the block reader still
+//     yields the series, with a chunk iterator that yields nothing (an EMPTY input of the merge function);
+//   * by whole-chunk tombstones — the prefilter drops every chunk and the series is not yielded at all;
+//   * mixed (some chunks dropped by the prefilter, the rest emptied by partial tombstones), or by partial
+//     tombstones that straddle chunk boundaries / are open ended.
+// The emptied inputs sit first / in the middle / last / consecutively / everywhere in the order in which the
+// merge set hands the per-block series to the merge function (heap-pop order, simulated below to place
+// the blocks in time so that the concatenation of the non-empty inputs is sorted), under the
+// concatenating merger (horizontal compaction) and the compacting merger (horizontal and vertical).
+
+const (
+	emKeep       = iota // untouched
+	emPartialAll        // every chunk emptied by >= 2 partial tombstones: series yielded, no chunks
+	emWhole             // every chunk inside one tombstone: series not yielded
+	emMixed             // some chunks inside one tombstone, the others emptied by partial ones: yielded, no chunks
+	emStraddle          // partial tombstones from inside chunk k to inside chunk k+1: yielded, no chunks
+	emAllButOne         // control: exactly one sample survives
+	emSomeChunks        // a proper subset of the chunks is emptied by partial tombstones
+)
+
+func emContributes(mode int) bool {
+	return mode == emKeep || mode == emAllButOne || mode == emSomeChunks
+}
+
+// partialPair: two intervals covering all samples of c, with an uncovered timestamp between two of its
+// samples (samples are >= 2 apart), so neither holds both ends of the chunk.
+func partialPair(r *h.Rng, c chunkT) [][2]int64 {
+	n := len(c.xs)
+	j := r.Intn(n - 1)
+	return [][2]int64{{c.xs[0].t - int64(r.Intn(2)), c.xs[j].t}, {c.xs[j+1].t, c.xs[n-1].t + int64(r.Intn(2))}}
+}
+
+func emptyingTombs(r *h.Rng, cs []chunkT, mode int) [][2]int64 {
+	var out [][2]int64
+	switch mode {
+	case emPartialAll:
+		for _, c := range cs {
+			out = append(out, partialPair(r, c)...)
+		}
+	case emWhole:
+		switch r.Intn(4) {
+		case 0:
+			out = append(out, [2]int64{cs[0].mint, cs[len(cs)-1].maxt})
+		case 1:
+			out = append(out, [2]int64{math.MinInt64, math.MaxInt64})
+		default:
+			for _, c := range cs {
+				d := int64(r.Intn(2))
+				out = append(out, [2]int64{c.mint - d, c.maxt + d})
+			}
+		}
+	case emMixed:
+		whole := r.Intn(len(cs))
+		for i, c := range cs {
+			if i == whole || (len(cs) > 2 && r.Chance(30) && i != (whole+1)%len(cs)) {
+				out = append(out, [2]int64{c.mint, c.maxt})
+			} else {
+				out = append(out, partialPair(r, c)...)
+			}
+		}
+	case emStraddle:
+		start := cs[0].xs[0].t
+		for _, c := range cs {
+			j := r.Intn(len(c.xs) - 1)
+			out = append(out, [2]int64{start, c.xs[j].t})
+			start = c.xs[j+1].t
+		}
+		last := cs[len(cs)-1]
+		out = append(out, [2]int64{start, last.xs[len(last.xs)-1].t})
+	case emAllButOne:
+		var ts []int64
+		for _, c := range cs {
+			for _, x := range c.xs {
+				ts = append(ts, x.t)
+			}
+		}
+		keep := []int{0, len(ts) - 1, r.Intn(len(ts))}[r.Intn(3)]
+		if keep > 0 {
+			out = append(out, [2]int64{ts[0], ts[keep-1]})
+		}
+		if keep < len(ts)-1 {
+			out = append(out, [2]int64{ts[keep+1], ts[len(ts)-1]})
+		}
+	case emSomeChunks:
+		sel := 1 + r.Intn(1<<uint(len(cs))-2) // non-empty proper subset
+		for i, c := range cs {
+			if sel>>uint(i)&1 == 1 {
+				out = append(out, partialPair(r, c)...)
+			}
+		}
+	}
+	if len(out) > 0 && mode != emAllButOne && mode != emSomeChunks {
+		if r.Chance(15) {
+			out[0][0] = math.MinInt64
+		}
+		if r.Chance(15) {
+			out[len(out)-1][1] = math.MaxInt64
+		}
+	}
+	if r.Chance(30) {
+		for i := len(out) - 1; i > 0; i-- {
+			j := r.Intn(i + 1)
+			out[i], out[j] = out[j], out[i]
+		}
+	}
+	return out
+}
+
+type emSetHeap struct {
+	lbls [][]labels.Labels
+	pos  []int
+	h    []int
+}
+
+func (e *emSetHeap) Len() int      { return len(e.h) }
+func (e *emSetHeap) Swap(i, j int) { e.h[i], e.h[j] = e.h[j], e.h[i] }
+func (e *emSetHeap) Less(i, j int) bool {
+	a, b := e.h[i], e.h[j]
+	return labels.Compare(e.lbls[a][e.pos[a]], e.lbls[b][e.pos[b]]) < 0
+}
+func (e *emSetHeap) Push(x any) { e.h = append(e.h, x.(int)) }
+func (e *emSetHeap) Pop() any {
+	n := len(e.h)
+	x := e.h[n-1]
+	e.h = e.h[:n-1]
+	return x
+}
+
+// popOrders predicts, per label set, the order in which the merge set passes the blocks' series to the
+// merge function (generator aid only: it decides where the blocks are put in time; model and judge do
+// not depend on it). yielded[b] = the label sets block b yields, in label order.
+func popOrders(yielded [][]string) map[string][]int {
+	e := &emSetHeap{pos: make([]int, len(yielded))}
+	for _, ls := range yielded {
+		var row []labels.Labels
+		for _, l := range ls {
+			row = append(row, parseLabels(l))
+		}
+		e.lbls = append(e.lbls, row)
+	}
+	for b := range yielded {
+		if len(yielded[b]) > 0 {
+			heap.Push(e, b)
+		}
+	}
+	out := map[string][]int{}
+	var cur []int
+	for {
+		for _, b := range cur {
+			e.pos[b]++
+			if e.pos[b] < len(yielded[b]) {
+				heap.Push(e, b)
+			}
+		}
+		if e.Len() == 0 {
+			return out
+		}
+		cur = cur[:0]
+		l := yielded[e.h[0]][e.pos[e.h[0]]]
+		for e.Len() > 0 && yielded[e.h[0]][e.pos[e.h[0]]] == l {
+			cur = append(cur, heap.Pop(e).(int))
+		}
+		out[l] = append([]int(nil), cur...)
+	}
+}
+
+// emMasks: which blocks (declaration index) have the target series emptied.
+func emMasks(nb int) []uint {
+	all := uint(1)<<uint(nb) - 1
+	ms := []uint{
+		1,                        // first
+		1 << uint(nb-1),          // last
+		1 << uint(nb/2),          // middle
+		2,                        // second
+		3,                        // first two
+		3 << uint(nb-2),          // last two
+		all &^ 1,                 // all but the first
+		all &^ (1 << uint(nb-1)), // all but the last
+		all &^ (1 << uint(nb/2)), // all but the middle
+		all,                      // all
+		all & 0x15,               // alternating
+		all & 0x0a,               // alternating
+		6 & all,                  // second and third
+		0,                        // control: none
+	}
+	return ms
+}
+
+// genEmptiedCase builds directed case number k (quick: a rotation through the block counts, masks,
+// emptying modes and mergers; thorough: every mask).
+func genEmptiedCase(c *rec, r *h.Rng, k int, exhaustive bool) []string {
+	var nb int
+	var mask uint
+	flavour := k % 4 // 0,1,2: concat (horizontal); 3: compact, alternately horizontal / vertical
+	if exhaustive {
+		// 8 + 16 + 32 masks, each under 4 flavours
+		m := (k / 4) % 56
+		switch {
+		case m < 8:
+			nb, mask = 3, uint(m)
+		case m < 24:
+			nb, mask = 4, uint(m-8)
+		default:
+			nb, mask = 5, uint(m-24)
+		}
+	} else {
+		// quick: 14 masks x 4 flavours, the block count rotating with both
+		g := (k / 4) % 14
+		nb = 3 + (g+flavour)%3
+		if k%29 == 28 {
+			nb = 2
+		}
+		mask = emMasks(nb)[g]
+		if k >= 56 {
+			nb = 2 + r.Intn(4)
+			mask = uint(r.Intn(1 << uint(nb)))
+		}
+	}
+	merger, vertical := "concat", false
+	if flavour == 3 {
+		merger = "compact"
+		vertical = (k/4)%2 == 0
+	}
+	c.Count("emptied:case")
+	c.Count(fmt.Sprintf("emptied:blocks:%d", nb))
+	c.Count("emptied:merger:" + merger)
+	if vertical {
+		c.Count("emptied:vertical")
+	}
+
+	// label sets: a target shared by all blocks, a second shared series, 0-2 series living in some blocks
+	pool := append([]string(nil), labelPool...)
+	for i := len(pool) - 1; i > 0; i-- {
+		j := r.Intn(i + 1)
+		pool[i], pool[j] = pool[j], pool[i]
+	}
+	nser := 1 + r.Intn(4)
+	pool = pool[:nser]
+	target := r.Intn(nser)
+	if r.Chance(50) {
+		// the target is the first label set of every block
+		sort.Slice(pool, func(a, b int) bool { return labels.Compare(parseLabels(pool[a]), parseLabels(pool[b])) < 0 })
+		target = 0
+	}
+	type plan struct {
+		present bool
+		mode    int
+		shape   [][]int64 // per chunk the offsets of its samples from the series start
+	}
+	emptyModes := []int{emPartialAll, emPartialAll, emPartialAll, emPartialAll, emWhole, emMixed, emStraddle, emStraddle}
+	var plans [][]plan // [series][block]
+	build := func() {
+		plans = make([][]plan, nser)
+		for si := range pool {
+			plans[si] = make([]plan, nb)
+			shared := si == target || (si == (target+1)%nser && r.Chance(70))
+			for b := 0; b < nb; b++ {
+				p := &plans[si][b]
+				switch {
+				case si == target:
+					p.present = true
+				case shared:
+					p.present = r.Chance(75)
+				default:
+					p.present = r.Chance(30)
+				}
+				if !p.present {
+					continue
+				}
+				nch := 1 + r.Intn(3)
+				off := int64(0)
+				for q := 0; q < nch; q++ {
+					var ch []int64
+					for n := 2 + r.Intn(4); n > 0; n-- {
+						ch = append(ch, off)
+						off += int64(2 + r.Intn(3))
+					}
+					p.shape = append(p.shape, ch)
+					off += int64(r.Intn(4))
+				}
+				emptied := false
+				if si == target {
+					emptied = mask>>uint(b)&1 == 1
+				} else if shared {
+					emptied = r.Chance(35)
+				} else {
+					emptied = r.Chance(10)
+				}
+				switch {
+				case emptied:
+					p.mode = h.Pick(r, emptyModes)
+					if p.mode == emMixed && nch == 1 {
+						p.mode = emPartialAll
+					}
+				case r.Chance(15):
+					p.mode = emAllButOne
+				case r.Chance(15) && nch > 1:
+					p.mode = emSomeChunks
+				default:
+					p.mode = emKeep
+				}
+			}
+		}
+	}
+	// where the blocks go in time: rank[b]; for the concatenating merger try to make the concatenation of
+	// the contributing inputs sorted (otherwise the index writer refuses the series and the case only shows
+	// the error)
+	rank := make([]int, nb)
+	place := func() bool {
+		yielded := make([][]string, nb)
+		order := make([]int, nser)
+		for i := range order {
+			order[i] = i
+		}
+		sort.Slice(order, func(a, b int) bool {
+			return labels.Compare(parseLabels(pool[order[a]]), parseLabels(pool[order[b]])) < 0
+		})
+		for b := 0; b < nb; b++ {
+			for _, si := range order {
+				if p := plans[si][b]; p.present && p.mode != emWhole {
+					yielded[b] = append(yielded[b], pool[si])
+				}
+			}
+		}
+		orders := popOrders(yielded)
+		before := make([][]bool, nb)
+		for i := range before {
+			before[i] = make([]bool, nb)
+		}
+		sensitive := false
+		for si, l := range pool {
+			prev := -1
+			seenEmptyAt := -1
+			for pos, b := range orders[l] {
+				if !emContributes(plans[si][b].mode) {
+					if pos >= 1 && seenEmptyAt < 0 {
+						seenEmptyAt = pos
+					}
+					continue
+				}
+				if seenEmptyAt >= 0 && len(orders[l]) > 1 {
+					sensitive = true
+				}
+				if prev >= 0 {
+					before[prev][b] = true
+				}
+				prev = b
+			}
+		}
+		// Kahn's algorithm with random choice among the ready blocks
+		done := make([]bool, nb)
+		for n := 0; n < nb; n++ {
+			var ready []int
+			for b := 0; b < nb; b++ {
+				if done[b] {
+					continue
+				}
+				ok := true
+				for a := 0; a < nb; a++ {
+					if !done[a] && before[a][b] {
+						ok = false
+					}
+				}
+				if ok {
+					ready = append(ready, b)
+				}
+			}
+			if len(ready) == 0 {
+				return false
+			}
+			b := ready[0]
+			if r.Chance(40) {
+				b = h.Pick(r, ready)
+			}
+			rank[b] = n
+			done[b] = true
+		}
+		if sensitive {
+			c.Count("emptied:empty-input-before-nonempty")
+		}
+		return true
+	}
+	build()
+	switch {
+	case merger == "concat" && r.Chance(85):
+		ok := place()
+		for try := 0; !ok && try < 12; try++ {
+			build()
+			ok = place()
+		}
+		if ok {
+			c.Count("emptied:placed-sorted")
+		} else {
+			c.Count("emptied:order-conflict")
+			for b := range rank {
+				rank[b] = b
+			}
+		}
+	case r.Chance(35):
+		for b := range rank {
+			rank[b] = b
+		}
+		for i := nb - 1; i > 0; i-- {
+			j := r.Intn(i + 1)
+			rank[i], rank[j] = rank[j], rank[i]
+		}
+		c.Count("emptied:dirs-shuffled")
+	default:
+		for b := range rank {
+			rank[b] = b
+		}
+	}
+	// materialise
+	const W = 90
+	base := int64(r.Intn(40)) - 20
+	gap := r.Chance(50)
+	blocks := make([]blkT, nb)
+	for b := range blocks {
+		q := int64(rank[b])
+		switch {
+		case vertical:
+			st := base + q*int64(10+r.Intn(25))
+			blocks[b].mint, blocks[b].maxt = st, st+W
+		case gap:
+			blocks[b].mint, blocks[b].maxt = base+q*W+int64(r.Intn(3)), base+(q+1)*W-int64(r.Intn(3))
+		default:
+			blocks[b].mint, blocks[b].maxt = base+q*W, base+(q+1)*W
+		}
+	}
+	order := make([]int, nser)
+	for i := range order {
+		order[i] = i
+	}
+	sort.Slice(order, func(a, b int) bool {
+		return labels.Compare(parseLabels(pool[order[a]]), parseLabels(pool[order[b]])) < 0
+	})
+	allEmpty := true
+	for b := range blocks {
+		for _, si := range order {
+			p := plans[si][b]
+			if !p.present {
+				continue
+			}
+			last := p.shape[len(p.shape)-1]
+			length := last[len(last)-1]
+			room := (blocks[b].maxt - 1 - blocks[b].mint) - length - 2
+			start := blocks[b].mint + 1
+			if room > 0 {
+				start += int64(r.Intn(int(room)))
+			}
+			s := serT{lbl: pool[si]}
+			for _, sh := range p.shape {
+				ch := chunkT{mint: start + sh[0], maxt: start + sh[len(sh)-1]}
+				for _, o := range sh {
+					ch.xs = append(ch.xs, smp{start + o, 'f', fbits(genValue(si, start+o, 0))})
+				}
+				s.chunks = append(s.chunks, ch)
+			}
+			s.tombs = emptyingTombs(r, s.chunks, p.mode)
+			if p.mode == emKeep && r.Chance(15) {
+				s.tombs = genTombs(r, s, blocks[b].mint, blocks[b].maxt)
+			}
+			if emContributes(p.mode) {
+				allEmpty = false
+			}
+			c.Count(fmt.Sprintf("emptied:mode:%d", p.mode))
+			blocks[b].series = append(blocks[b].series, s)
+		}
+	}
+	if allEmpty {
+		c.Count("emptied:everything-deleted")
+	}
+	var ops []string
+	for _, b := range blocks {
+		ops = append(ops, fmt.Sprintf("blk %d %d", b.mint, b.maxt))
+	}
+	for i, b := range blocks {
+		for _, s := range b.series {
+			ops = append(ops, fmt.Sprintf("ser %d %s %s %s", i, s.lbl, showChunks(s.chunks), showTombs(s.tombs)))
+		}
+	}
+	ops = append(ops, "compact "+merger)
+	return ops
+}
+
 func genHeadCase(c *rec, r *h.Rng) []string {
 	chunkRange := int64(40 + r.Intn(100))
 	mmap := r.Bool()
@@ -1358,6 +1852,26 @@ func main() {
 			j.r.Count("case:blocks")
 		}
 		jobs[i] = j
+	}
+	// emptied-input cases: appended after the random cases (their PRNG forks come last, so the random
+	// cases of a seed are the ones they were before)
+	nEm := 56
+	if c.Tier == "thorough" {
+		nEm = 56*4*2 + 112
+	}
+	if v, err := strconv.Atoi(c.Extra["emptied"]); err == nil {
+		nEm = v
+	}
+	for k := 0; k < nEm; k++ {
+		r := c.Rng.Fork()
+		j := &job{}
+		if c.Tier == "thorough" && k < 56*4*2 {
+			j.ops = genEmptiedCase(&j.r, r, k, true)
+		} else {
+			j.ops = genEmptiedCase(&j.r, r, k, false)
+		}
+		j.r.Count("case:emptied")
+		jobs = append(jobs, j)
 	}
 	workers := 6
 	if w, err := strconv.Atoi(os.Getenv("VERIF_WORKERS")); err == nil && w > 0 {
